@@ -138,12 +138,16 @@ pub struct Chunking {
     /// chance per 1000 `read` calls of returning `ErrorKind::Interrupted`
     pub eintr_permille: u32,
     pub seed: u64,
+    /// a concurrent writer "touches" the files: every re-open of an .scss file after its first delivers
+    /// the same stylesheet with one more silent comment at the end (other bytes, same meaning)
+    #[serde(default)]
+    pub touch_reopened: bool,
 }
 
 impl Chunking {
-    pub const NONE: Chunking = Chunking { max: 0, random: false, eintr_permille: 0, seed: 0 };
+    pub const NONE: Chunking = Chunking { max: 0, random: false, eintr_permille: 0, seed: 0, touch_reopened: false };
     pub fn is_benign_noise(&self) -> bool {
-        self.max != 0 || self.eintr_permille != 0
+        self.max != 0 || self.eintr_permille != 0 || self.touch_reopened
     }
     pub fn draw(rng: &mut Rng) -> Chunking {
         let max = *rng.pick(&[0usize, 1, 2, 7, 31, 4096]);
@@ -152,7 +156,16 @@ impl Chunking {
             random: max > 1 && rng.chance(1, 2),
             eintr_permille: *rng.pick(&[0u32, 0, 50, 300]),
             seed: rng.next_u64(),
+            touch_reopened: false,
         }
+    }
+    /// For workloads made of generated (always well-formed) files: also let a concurrent writer touch
+    /// files between re-opens.  (Not for corpus inputs: a stylesheet that ends in a syntax error would
+    /// quote the added comment in its error text.)
+    pub fn draw_for_generated(rng: &mut Rng) -> Chunking {
+        let mut c = Chunking::draw(rng);
+        c.touch_reopened = rng.chance(1, 3);
+        c
     }
 }
 
@@ -187,6 +200,8 @@ pub struct LoaderState {
     pub hits: u64,
     pub opens: u64,
     pub stats_calls: u64,
+    /// how often each file has been opened (for `touch_reopened`)
+    pub opened: BTreeMap<String, u32>,
     pub plan: FaultPlan,
     pub chunk: Chunking,
     rng: Rng,
@@ -205,6 +220,7 @@ impl LoaderState {
             hits: 0,
             opens: 0,
             stats_calls: 0,
+            opened: BTreeMap::new(),
             plan,
             chunk,
             rng: Rng::new(chunk.seed),
@@ -218,6 +234,19 @@ impl LoaderState {
         let mut s = st.borrow_mut();
         let hit = s.hits;
         s.hits += 1;
+        let nth = {
+            let e = s.opened.entry(canon.to_string()).or_insert(0);
+            *e += 1;
+            *e
+        };
+        let data = if s.chunk.touch_reopened && nth > 1 && canon.ends_with(".scss") {
+            s.fired.inc("TouchedBetweenOpens");
+            let mut d = (*data).clone();
+            d.extend_from_slice(format!("\n// touched {nth}\n").as_bytes());
+            Rc::new(d)
+        } else {
+            data
+        };
         let fault = s.plan.reads.get(&hit).copied();
         SimFile {
             data,
@@ -694,6 +723,11 @@ impl rsass_verif_fs::Backend for SimBackend {
                 self.st.borrow_mut().history.push(Event::Open { idx, path: shown, res: FindRes::Miss });
                 if is_dir {
                     return Ok(Box::new(DirHandle));
+                }
+                // a regular file where a directory is needed: ENOTDIR, not ENOENT
+                let enotdir = self.dir(path).is_some_and(|(base, rel)| self.fs.blocked_by_file(&base, &rel));
+                if enotdir {
+                    return Err(io::Error::new(io::ErrorKind::NotADirectory, "Not a directory (simfs)"));
                 }
                 Err(io::Error::new(io::ErrorKind::NotFound, "No such file or directory (simfs)"))
             }
